@@ -84,3 +84,25 @@ package renamer
 //@   opt transparent generatedReserved
 //@   ensures every-module-scope: forall i int :: 0 <= i && i < len(moduleScopes) ==> generatedReserved(moduleScopes[i], symbols, result)
 //@   loop 2 invariant forall i int :: 0 <= i && i <= rangeindex ==> generatedReserved(moduleScopes[i], symbols, names)
+
+// C15: the non-minifying renamer (NumberRenamer) gives a symbol the first name of the form name, name2, name3, …
+// that is not taken anywhere up the scope chain. findNameUse must report "unused" only if the scope itself does
+// not have the name (and, by its loop, no ancestor has it); findUnusedName must return a name that was not taken
+// in this scope and record it as taken, never forgetting an earlier name.
+//@ func (*numberScope).findNameUse
+//@   arith int
+//@   prop C15
+//@   modifies nothing
+//@   requires s != nil
+//@   ensures unused-means-not-here: result == nameUnused ==> !inDom(s.nameCounts, name)
+//@   ensures same-scope-iff-here: (result == nameUsedInSameScope) == inDom(s.nameCounts, name)
+//@   loop 0 invariant s != nil && (s == original || !inDom(original.nameCounts, name))
+
+//@ func (*numberScope).findUnusedName
+//@   arith int
+//@   prop C15
+//@   requires s != nil
+//@   ensures fresh-in-this-scope: !old(inDom(s.nameCounts, result))
+//@   ensures recorded: inDom(s.nameCounts, result)
+//@   ensures never-forgets: forall k string :: old(inDom(s.nameCounts, k)) ==> inDom(s.nameCounts, k)
+//@   loop 0 invariant forall k string :: old(inDom(s.nameCounts, k)) ==> inDom(s.nameCounts, k)
